@@ -812,6 +812,16 @@ Section Runs.
   Qed.
 
   (* ---------------------------------------------------------- never a panic *)
+  Lemma plain_out_no_panic : forall P s, plain_out T P s <> Panic.
+  Proof. intros P s. unfold plain_out. destruct (check_assignable P T); try discriminate. destruct (slot_ok T s); discriminate. Qed.
+
+  Lemma plain_stream_no_panic : forall P cs, plain_stream T P cs <> Panic.
+  Proof.
+    intros P. induction cs as [|c cs IH]; simpl; [discriminate|].
+    pose proof (plain_out_no_panic P c) as Hc. destruct (plain_out T P c) as [x|e|]; simpl; [|discriminate|contradiction].
+    destruct (plain_stream T P cs) as [r|e|]; simpl; [discriminate|discriminate|contradiction].
+  Qed.
+
   Theorem run_no_panic : forall ds ckss,
     compile env T ds = CAccept ckss ->
     (forall srcs, Forall2 (fun d s => has_type env (d_ty d) s = true) ds srcs ->
@@ -820,21 +830,50 @@ Section Runs.
                      run_stream env T ds ckss chunkss <> Panic).
   Proof.
     intros ds ckss Hc. destruct (has_plain ds) eqn:Hp.
-    - split; intros l _; [unfold run_invoke | unfold run_stream]; rewrite Hp; destruct l; discriminate.
+    - split; intros l _; [unfold run_invoke | unfold run_stream]; rewrite Hp.
+      + destruct ds as [|d ds']; [discriminate|]. destruct l as [|s l]; [discriminate|]. apply plain_out_no_panic.
+      + destruct ds as [|d ds']; [discriminate|]. destruct l as [|cs l]; [discriminate|]. apply plain_stream_no_panic.
     - split.
       + intros srcs Ht E. pose proof (invoke_spec ds ckss srcs Hc Hp Ht) as H. rewrite E in H. exact H.
       + intros chunkss Ht E. pose proof (stream_spec ds ckss chunkss Hc Hp Ht) as H. rewrite E in H. exact H.
   Qed.
 
-  (* a plain edge: the successor gets the predecessor's value itself *)
+  (* a plain edge: the successor gets the predecessor's value itself — if it is a value of the
+     successor's input type (always, unless the predecessor's type is an interface and the successor's
+     is not: then the edge's run-time type check decides); otherwise an error *)
+  Lemma plain_stream_spec : forall P cs,
+    plain_stream T P cs = (if forallb (fun c => match plain_out T P c with Ok _ => true | _ => false end) cs
+                           then Ok cs else Err ECheck).
+  Proof.
+    intros P. induction cs as [|c cs IH]; simpl; [reflexivity|].
+    unfold plain_out at 1 2. destruct (check_assignable P T); simpl; try (rewrite IH; destruct (forallb _ cs); reflexivity).
+    destruct (slot_ok T c); simpl; [rewrite IH; destruct (forallb _ cs); reflexivity | reflexivity].
+  Qed.
+
   Theorem plain_edge_spec : forall ds ckss,
     compile env T ds = CAccept ckss -> has_plain ds = true ->
-    exists d, ds = [d] /\ d_maps d = [] /\
-      (forall s, run_invoke env T ds ckss [s] = Ok s) /\ (forall cs, run_stream env T ds ckss [cs] = Ok cs).
+    exists d, ds = [d] /\ d_maps d = [] /\ check_assignable (d_ty d) T <> MustNot /\
+      (forall s, run_invoke env T ds ckss [s] =
+                 if (match check_assignable (d_ty d) T with May => negb (slot_ok T s) | _ => false end)
+                 then Err ECheck else Ok s) /\
+      (forall cs, run_stream env T ds ckss [cs] =
+                  if forallb (fun c => match check_assignable (d_ty d) T with May => slot_ok T c | _ => true end) cs
+                  then Ok cs else Err ECheck).
   Proof.
     intros ds ckss Hc Hp. destruct (plain_alone ds ckss Hc Hp) as [d [-> Hd]].
-    exists d. split; [reflexivity|]. split; [exact Hd|].
-    split; intros; [unfold run_invoke | unfold run_stream]; rewrite Hp; reflexivity.
+    exists d. split; [reflexivity|]. split; [exact Hd|]. split.
+    - unfold compile in Hc. simpl in Hc. unfold decl_paths in Hc. rewrite Hd in Hc. simpl in Hc.
+      intro E. rewrite E in Hc. discriminate.
+    - split; intros; [unfold run_invoke | unfold run_stream]; rewrite Hp.
+      + unfold plain_out. destruct (check_assignable (d_ty d) T); try reflexivity. destruct (slot_ok T s); reflexivity.
+      + rewrite plain_stream_spec. unfold plain_out.
+        assert (E : forall l, forallb (fun c => match match check_assignable (d_ty d) T with
+                                                   | May => if slot_ok T c then Ok c else Err ECheck
+                                                   | _ => Ok c end with Ok _ => true | _ => false end) l
+                              = forallb (fun c => match check_assignable (d_ty d) T with May => slot_ok T c | _ => true end) l).
+        { induction l as [|c l IH]; simpl; [reflexivity|]. rewrite IH. f_equal.
+          destruct (check_assignable (d_ty d) T); try reflexivity. destruct (slot_ok T c); reflexivity. }
+        rewrite E. reflexivity.
   Qed.
 
   (* no target path lies strictly below another one: the walker never descends into a value
